@@ -177,6 +177,24 @@ def check_blockmut(rec, st):
                 st.seen("bm_nocb_non64_ibm_true" if d["ibm"] else "bm_nocb_non64_ibm_false")
             st.nontrivial("tx64", rec["hash"])
             continue
+        if who == "o":
+            # a block with its own header whose witness commitment is wrong in one byte
+            if a["bound"] or not a["root_ok"] or a["dup"]:
+                raise AssertionError("generator: own-header bad-commitment block is not (only) commitment-invalid: %r" % a)
+            st.seen("bm_vk_" + d["vk"])
+            if d["ret"] or d["res"] == "VALID" or d["data"] or d["active"]:
+                bad("unbound-block-accepted", "a block whose witness commitment does not match its witness data was accepted / stored", d, {"analysis": a})
+            elif d["nchk"] < 1 or d["res"] != "MUTATED":
+                bad("variant-not-reported-mutated", "a block with a wrong witness commitment was not rejected with BLOCK_MUTATED", d, {"analysis": a})
+            else:
+                st.seen("own_badcommit_rej")
+            if d["failed"]:
+                bad("genuine-poisoned", "index entry marked BLOCK_FAILED_VALID after a block with a wrong witness commitment (witness data is not covered by the hash)", d)
+            if not d["tip_same"]:
+                bad("tip-moved-by-variant", "the tip moved on delivery of a block with a wrong witness commitment", d)
+            if not d["ibm"]:
+                bad("isblockmutated-missed", "IsBlockMutated is false for a block with a wrong witness commitment", d, {"analysis": a})
+            continue
         if who == "v":
             if a["bound"]:
                 st.seen("bm_variant_not_a_mutation")  # generator produced an equivalent block: nothing to demand
